@@ -88,6 +88,8 @@ NOOPS = [
     "for <x> in <args>: assert <x>.type.integer.<field>[, msg]      (protobuf field presence; the record always has the field)",
     "expression = ir_data_utils.builder(expression)                   (IR view plumbing)",
     "ir_data_utils.reader(expression)                                  (IR view plumbing, identity)",
+    "<operands>[0].type.which_type / expression.type.which_type        (statically \"integer\" in this instantiation; the IndexError of "
+    "the subscript inside such a test is not modelled; an if on it keeps its dead branch as dead code)",
 ]
 
 
@@ -1003,6 +1005,14 @@ Proof.
   repeat match goal with |- context [ext_add ?a ?b] => destruct (ext_add a b) end;
   bx_fin.
 Qed.
+
+Theorem g_compute_constraints_of_additive_operator_on_analysis : forall G a b ia ib x y sub, (forall i, aval_wf (G i)) ->
+  analyze G a = Some ia -> analyze G b = Some ib -> as_int ia = Some x -> as_int ib = Some y ->
+  g_compute_constraints_of_additive_operator (fn_of sub) [a2g x; a2g y] = option_map a2g (aval_additive sub x y).
+Proof.
+  intros G a b ia ib x y sub HG Ha Hb Hx Hy. apply g_compute_constraints_of_additive_operator_eq; apply wf_md_nonneg;
+    [exact (operand_wf G a ia x HG Ha Hx) | exact (operand_wf G b ib y HG Hb Hy)].
+Qed.
 ''',
     'g_compute_constraints_of_multiplicative_operator': r'''Local Opaque g_greatest_common_divisor.
 Theorem g_compute_constraints_of_multiplicative_operator_eq : forall l r, aval_wf l -> aval_wf r ->
@@ -1024,6 +1034,14 @@ Proof.
        repeat match goal with E : gcdx ?a ?b = _ |- context [gcdx ?a ?b] => rewrite E end;
        bx_cbn; rewrite ?Z.mul_1_l; rewrite ?py_mod_nz by bx_nz; try reflexivity.
 Qed.
+
+Theorem g_compute_constraints_of_multiplicative_operator_on_analysis : forall G a b ia ib x y, (forall i, aval_wf (G i)) ->
+  analyze G a = Some ia -> analyze G b = Some ib -> as_int ia = Some x -> as_int ib = Some y ->
+  g_compute_constraints_of_multiplicative_operator [a2g x; a2g y] = option_map a2g (aval_mul x y).
+Proof.
+  intros G a b ia ib x y HG Ha Hb Hx Hy. apply g_compute_constraints_of_multiplicative_operator_eq;
+    [exact (operand_wf G a ia x HG Ha Hx) | exact (operand_wf G b ib y HG Hb Hy)].
+Qed.
 ''',
     'g_compute_constraints_of_choice_operator': r'''Theorem g_compute_constraints_of_choice_operator_eq : forall t f, md_nonneg t.(md) -> md_nonneg f.(md) ->
   g_compute_constraints_of_choice_operator None (a2g t) (a2g f) = option_map a2g (aval_choice t f).
@@ -1037,6 +1055,14 @@ Qed.
 Theorem g_compute_constraints_of_choice_operator_const : forall b t f,
   g_compute_constraints_of_choice_operator (Some b) t f = Some (if b then t else f).
 Proof. intros [|] [? ? ? ?] [? ? ? ?]; reflexivity. Qed.
+
+Theorem g_compute_constraints_of_choice_operator_on_analysis : forall G a b ia ib x y, (forall i, aval_wf (G i)) ->
+  analyze G a = Some ia -> analyze G b = Some ib -> as_int ia = Some x -> as_int ib = Some y ->
+  g_compute_constraints_of_choice_operator None (a2g x) (a2g y) = option_map a2g (aval_choice x y).
+Proof.
+  intros G a b ia ib x y HG Ha Hb Hx Hy. apply g_compute_constraints_of_choice_operator_eq; apply wf_md_nonneg;
+    [exact (operand_wf G a ia x HG Ha Hx) | exact (operand_wf G b ib y HG Hb Hy)].
+Qed.
 ''',
     'g_compute_constraints_of_maximum_function': r'''Theorem g_compute_constraints_of_maximum_function_eq : forall args, Forall (fun a => md_nonneg a.(md)) args ->
   (r <- g_compute_constraints_of_maximum_function (map a2g args);; g2a r) = aval_max args.
@@ -1049,6 +1075,14 @@ Proof.
   - destruct (fold_left ext_max2 (map lo rest) lo0); reflexivity.
   - rewrite (foldM_shared g_shared_modular_value g_shared_modular_value_eq) by assumption.
     destruct (shared_fold md0 mv0 rest) as [[m v]|]; cbn [option_map sh2g fst snd]; [apply g2a_mk|reflexivity].
+Qed.
+
+Theorem g_compute_constraints_of_maximum_function_on_analysis : forall G args is avs, (forall i, aval_wf (G i)) ->
+  sequence (map (analyze G) args) = Some is -> sequence (map as_int is) = Some avs ->
+  (r <- g_compute_constraints_of_maximum_function (map a2g avs);; g2a r) = aval_max avs.
+Proof.
+  intros G args is avs HG E1 E2. apply g_compute_constraints_of_maximum_function_eq. apply Forall_wf_md_nonneg.
+  exact (operands_wf G args is avs HG E1 E2).
 Qed.
 ''',
 }
@@ -1063,7 +1097,7 @@ def equality_file(defs, logical_defs, assum_dir=None):
     """Text of the theorem file for the functions in `defs` (all of ORDER when the translation is complete)."""
     out = ["(* GENERATED by harness/bounds_x.py: each regenerated definition equals the model function of Bounds/Model.v *)",
            "From Coq Require Import ZArith List Bool Lia ZifyBool.", "Import ListNotations.",
-           "Require Import EmbossV.Bounds.Model EmbossV.Bounds.GenBridge.", "Require Import %s." % logical_defs,
+           "Require Import EmbossV.Bounds.Model EmbossV.Bounds.GenBridge EmbossV.Bounds.GenBridgeWf.", "Require Import %s." % logical_defs,
            "Open Scope Z_scope.", ""]
     names = []
     for name in ORDER:
@@ -1211,10 +1245,10 @@ def run_tie(ctx, c05):
                       % (f.fn, f.what + (" (line %s)" % f.line if f.line else "")),
                       dict(kind="tie", translator="harness/bounds_x.py", function=f.fn, line=f.line, what=f.what,
                            tie="regenerated definition of %s = model function of Bounds/Model.v" % f.fn), found_input=False)
-    rc, out = fw.coq_make(["Bounds/GenBridge.vo"])
+    rc, out = fw.coq_make(["Bounds/GenBridgeWf.vo"])       # (depends on Bounds/GenBridge.vo)
     if rc != 0:
-        ctx.obligation("Bounds/GenBridge.v builds", False)
-        ctx.violation("proof-broken:Bounds/GenBridge.v", "static bridge file does not build", dict(kind="proof", log=out[-3000:]), found_input=False)
+        ctx.obligation("Bounds/GenBridge.v, Bounds/GenBridgeWf.v build", False)
+        ctx.violation("proof-broken:Bounds/GenBridgeWf.v", "static bridge files do not build", dict(kind="proof", log=out[-3000:]), found_input=False)
         return False
     gen_v = os.path.join(d, "BoundsGen.v")
     open(gen_v, "w").write(definitions_file(fw.REPO, defs))
